@@ -261,6 +261,7 @@ func (vc *FuncVC) execute() {
 	}
 	// parameters
 	penv := map[string]Term{}
+	vc.initReplay()
 	for _, p := range fn.Params {
 		t := T(vc.ss.sortOf(p.Type()), "p!"+smtIdent(p.Name()))
 		t.GoT = p.Type()
@@ -268,6 +269,9 @@ func (vc *FuncVC) execute() {
 		vc.regs[p] = t
 		penv[p.Name()] = t
 		vc.paramList = append(vc.paramList, t)
+		if vc.replayable {
+			vc.paramWatch = append(vc.paramWatch, vc.watchOf(fmt.Sprintf("param%d:%s", len(vc.paramList)-1, p.Name()), t, p.Type())...)
+		}
 		vc.typeFacts(tTrue, t, p.Type())
 		// whatever a parameter refers to existed before this invocation
 		al := vc.get(vc.init, "alloc", "(Array Int Bool)")
@@ -1689,6 +1693,12 @@ func (vc *FuncVC) doReturn(s *State, r *ssa.Return, b *ssa.BasicBlock) {
 			if cl.active(vc.prop) {
 				vc.oblige("site", fmt.Sprintf("site@return#%d:%s", n, clauseName(cl, i)), cl.Src, r.Pos(), s.pc, vc.tr(e, cl.E))
 			}
+		}
+	}
+	vc.resWatch = nil
+	if vc.replayable {
+		for i, rt := range res {
+			vc.resWatch = append(vc.resWatch, vc.watchOf(fmt.Sprintf("result%d", i), rt, vc.fn.Signature.Results().At(i).Type())...)
 		}
 	}
 	for i, cl := range vc.c.Ens {
